@@ -78,6 +78,10 @@ MUTANTS = [
     ("dual1_edge_list", "bempp_cl/api/space/scalar_dual_spaces.py", "enumerate([[1, 5], [13, 17], [7, 11]])", "enumerate([[1, 5], [7, 11], [13, 17]])", 0, ["C10"]),
     ("bary_connectivity", "bempp_cl/api/grid/grid.py", "        new_elements[1, 6 * index + 2] = local_vertex_ids[2]", "        new_elements[1, 6 * index + 2] = local_vertex_ids[1]", 0, ["C10", "C11"]),
     ("refine_orientation", "bempp_cl/api/grid/grid.py", "new_elements[:, 4 * index + 3] = [vertex01, vertex12, vertex20]", "new_elements[:, 4 * index + 3] = [vertex01, vertex20, vertex12]", 0, ["C11", "C04"]),
+    ("edge_enum_not_registered", "bempp_cl/api/grid/grid.py", "                edge_tuple_to_index[edge_tuple] = edge_index\n", "", 0, ["C11"]),
+    ("edge_enum_counter_first", "bempp_cl/api/grid/grid.py", "                edge_index = number_of_edges\n                edge_tuple_to_index[edge_tuple] = edge_index\n                edges.append(edge_tuple)\n                number_of_edges += 1\n", "                number_of_edges += 1\n                edge_index = number_of_edges\n                edge_tuple_to_index[edge_tuple] = edge_index\n                edges.append(edge_tuple)\n", 0, ["C11"]),
+    ("segments_grid_unmapped_elements", "bempp_cl/api/grid/grid.py", "new_elements = new_vertex_map[new_elements.ravel()].reshape(3, -1)", "new_elements = new_vertex_map[new_elements.ravel()].reshape(-1, 3).T", 0, ["C11"]),
+    ("segments_grid_domain_indices", "bempp_cl/api/grid/grid.py", "new_domain_indices = grid.domain_indices[element_in_new_grid]", "new_domain_indices = grid.domain_indices[: new_elements.shape[1]]", 0, ["C11"]),
     ("geom_normal_left_handed", "bempp_cl/api/grid/grid.py", "normal_directions = _np.cross(jacobians[::2], jacobians[1::2], axis=1)", "normal_directions = _np.cross(jacobians[1::2], jacobians[::2], axis=1)", 0, ["C11"]),
     ("geom_volume_factor", "bempp_cl/api/grid/grid.py", "volumes = 0.5 * normal_direction_norms", "volumes = normal_direction_norms", 0, ["C11"]),
     ("geom_diameter_formula", "bempp_cl/api/grid/grid.py", "diameters = jac_vector_norms[::2] * jac_vector_norms[1::2] * diff_norms / normal_direction_norms", "diameters = jac_vector_norms[::2] * jac_vector_norms[1::2] / normal_direction_norms", 0, ["C11"]),
@@ -204,6 +208,8 @@ EQUIVALENTS = [
      "        pot = [fmm_interface.evaluate(domain_rwg_map[c] @ x) for c in (0,)]\n        result = dual_rwg_map[0] @ pot[0][:, 0]\n        result += dual_rwg_map[2] @ fmm_interface.evaluate(domain_rwg_map[2] @ x)[:, 0]\n        result += dual_rwg_map[1] @ fmm_interface.evaluate(domain_rwg_map[1] @ x)[:, 0]\n        result = result * wavenumber * (-1j)\n", 0, ["C17"]),
     ("eq_block_matvec_rename", "bempp_cl/api/assembly/blocked_operator.py", "            col_dim = 0\n            local_res = res[row_dim : row_dim + self._rows[i]]\n            for j in range(self._ndims[1]):\n                local_x = x[col_dim : col_dim + self._cols[j]]\n",
      "            c0 = 0\n            col_dim = c0\n            nr = self._rows[i]\n            local_res = res[row_dim : nr + row_dim]\n            for j in range(self._ndims[1]):\n                local_x = x[col_dim : self._cols[j] + col_dim]\n", 0, ["C14"]),
+    ("eq_edge_enum_spelling", "bempp_cl/api/grid/grid.py", "            if edge_tuple not in edge_tuple_to_index:\n                edge_index = number_of_edges\n                edge_tuple_to_index[edge_tuple] = edge_index\n                edges.append(edge_tuple)\n                number_of_edges += 1\n            else:\n                edge_index = edge_tuple_to_index[edge_tuple]\n",
+     "            if edge_tuple in edge_tuple_to_index:\n                edge_index = edge_tuple_to_index[edge_tuple]\n            else:\n                edges.append(edge_tuple)\n                edge_index = number_of_edges\n                number_of_edges += 1\n                edge_tuple_to_index[edge_tuple] = edge_index\n", 0, ["C11"]),
     ("eq_refine_rename", "bempp_cl/api/grid/grid.py", "            vertex01 = self.element_edges[0, index] + self.number_of_vertices\n            vertex20 = self.element_edges[1, index] + self.number_of_vertices\n            vertex12 = self.element_edges[2, index] + self.number_of_vertices\n\n            new_elements[:, 4 * index] = [vertex0, vertex01, vertex20]\n\n            new_elements[:, 4 * index + 1] = [vertex01, vertex1, vertex12]\n\n            new_elements[:, 4 * index + 2] = [vertex12, vertex2, vertex20]\n\n            new_elements[:, 4 * index + 3] = [vertex01, vertex12, vertex20]\n",
      "            nv = self.number_of_vertices\n            m_a = nv + self.element_edges[0, index]\n            m_b = nv + self.element_edges[1, index]\n            m_c = nv + self.element_edges[2, index]\n            new_elements[:, 3 + 4 * index] = [m_a, m_c, m_b]\n            new_elements[:, 4 * index + 2] = [m_c, vertex2, m_b]\n            new_elements[:, 1 + index * 4] = [m_a, vertex1, m_c]\n            new_elements[:, index * 4] = [vertex0, m_a, m_b]\n", 0, ["C11", "C04"]),
     ("eq_union_rename", "bempp_cl/api/grid/grid.py", "        vertices[:, vertex_offset : vertex_offset + nvertices] = grid.vertices\n        if swapped_normals[index]:\n            current_elements = grid.elements[[0, 2, 1], :]\n        else:\n            current_elements = grid.elements\n        elements[:, element_offset : element_offset + nelements] = current_elements + vertex_offset\n        all_domain_indices[element_offset : element_offset + nelements] = domain_indices[index]\n        vertex_offset += nvertices\n        element_offset += nelements\n",
